@@ -14,6 +14,7 @@ import (
 	"fmt"
 	"net"
 	"strings"
+	"sync"
 	"testing"
 	"time"
 
@@ -165,3 +166,131 @@ func c16SocketTimeout(rt *rapid.T) {
 }
 
 func TestC16SocketTimeout(t *testing.T) { rapid.Check(t, c16SocketTimeout) }
+
+// Send racing with the end of the connection: goroutines keep calling Send on the client connection (and on the server
+// connection) without pause while the connection is closed from one of its ends, over and over. Nothing may panic (a send
+// on a channel that Close has just closed takes the whole process down), every Send returns, everything closes.
+type c16RaceSpec struct {
+	Version int
+	Rounds  int
+	Senders int
+	Fault   string // "client-close" | "server-conn-close" | "server-close" | "ctx-cancel"
+	DelayUs int
+}
+
+func c16RaceSession(args []string, _ []byte) string {
+	var spec c16RaceSpec
+	if err := json.Unmarshal([]byte(args[0]), &spec); err != nil {
+		return "FAIL: harness: " + err.Error()
+	}
+	v := primitive.ProtocolVersion(spec.Version)
+	const T = 10 * time.Second
+	for round := 0; round < spec.Rounds; round++ {
+		ctx, cancel := context.WithCancel(context.Background())
+		srv := client.NewCqlServer("127.0.0.1:0", nil)
+		if err := srv.Start(context.Background()); err != nil {
+			cancel()
+			return "FAIL: harness: server start: " + err.Error()
+		}
+		cl := client.NewCqlClient(srv.VerifAddr().String(), nil)
+		cl.MaxInFlight = 32000
+		var cc *client.CqlClientConnection
+		var sc *client.CqlServerConnection
+		if err := within(T, "BindAndInit", func() (err error) { cc, sc, err = srv.BindAndInit(cl, ctx, v, client.ManagedStreamId); return }); err != nil {
+			cancel()
+			_ = srv.Close()
+			return "FAIL: harness: bind: " + err.Error()
+		}
+		var wg sync.WaitGroup
+		stop := make(chan struct{})
+		for g := 0; g < spec.Senders; g++ {
+			wg.Add(2)
+			go func() {
+				defer wg.Done()
+				for {
+					select {
+					case <-stop:
+						return
+					default:
+					}
+					_, _ = cc.Send(frame.NewFrame(v, client.ManagedStreamId, &message.Options{}))
+				}
+			}()
+			go func() {
+				defer wg.Done()
+				for {
+					select {
+					case <-stop:
+						return
+					default:
+					}
+					_ = sc.Send(frame.NewFrame(v, 1, &message.Supported{}))
+				}
+			}()
+		}
+		time.Sleep(time.Duration(spec.DelayUs+round*37%500) * time.Microsecond)
+		closed := make(chan struct{})
+		go func() {
+			defer close(closed)
+			switch spec.Fault {
+			case "client-close":
+				_ = cc.Close()
+			case "server-conn-close":
+				_ = sc.Close()
+			case "server-close":
+				_ = srv.Close()
+			default:
+				cancel()
+			}
+		}()
+		select {
+		case <-closed:
+		case <-time.After(T):
+			return fmt.Sprintf("FAIL: %s did not return within %v while %d goroutines keep calling Send (round %d)", spec.Fault, T, 2*spec.Senders, round)
+		}
+		time.Sleep(2 * time.Millisecond)
+		close(stop)
+		done := make(chan struct{})
+		go func() { wg.Wait(); close(done) }()
+		select {
+		case <-done:
+		case <-time.After(T):
+			return fmt.Sprintf("FAIL: a Send did not return within %v of the connection being closed (round %d)", T, round)
+		}
+		for _, f := range []func() error{cc.Close, sc.Close, srv.Close} {
+			f := f
+			if err := within(T, "Close", func() error { _ = f(); return nil }); err != nil {
+				cancel()
+				return "FAIL: " + err.Error()
+			}
+		}
+		cancel()
+	}
+	return "OK"
+}
+
+func init() { workerHandlers["c16race"] = c16RaceSession }
+
+func c16SendCloseRace(rt *rapid.T) {
+	if !everyNth("c16SendCloseRace", 2, 10) {
+		return
+	}
+	defer noteFailure()
+	rec := stats.For("C16")
+	spec := c16RaceSpec{Version: int(rapid.SampledFrom(allVersions).Draw(rt, "version")), Rounds: rapid.IntRange(5, 25).Draw(rt, "rounds"), Senders: rapid.IntRange(1, 4).Draw(rt, "senders"),
+		Fault: rapid.SampledFrom([]string{"client-close", "server-conn-close", "server-close", "ctx-cancel"}).Draw(rt, "fault"), DelayUs: rapid.SampledFrom([]int{0, 20, 100, 400, 1500}).Draw(rt, "delayUs")}
+	sj, _ := json.Marshal(spec)
+	verdict := isolated("c16race", []string{string(sj)}, nil)
+	verdict = harnessTrouble(verdict)
+	if strings.HasPrefix(verdict, "FAIL:") {
+		rt.Fatalf("%s\nspec %s", verdict, sj)
+	}
+	if strings.HasPrefix(verdict, "SKIP:") {
+		rec.Case(false, 0, nil, "skipped:send-close-race")
+		return
+	}
+	rec.Case(true, stats.HashString("race/"+string(sj)), func() string { return "Send racing with Close: " + string(sj) }, "send-close-race")
+	rec.Class("send-close-race-rounds", int64(spec.Rounds))
+}
+
+func TestC16SendCloseRace(t *testing.T) { rapid.Check(t, c16SendCloseRace) }
